@@ -16,7 +16,7 @@ from ..ref import Outside, validate
 from ..sat import Z, z3_check
 
 LEVEL = 'translation_validation'
-STRATS = ('IterateSATGen', 'CMSGen', 'UniGen')
+STRATS = ('IterateSATGen', 'CMSGen', 'UniGen', 'IterateGen', 'UniformGen')
 
 
 def replay(data):
@@ -62,6 +62,8 @@ def strategy_link(sub, desc, only=None):
     for name in STRATS:
         if only and name != only:
             continue
+        if name in ('IterateGen', 'UniformGen') and not comp.block.complex_factors_or_constraints:
+            continue   # they delegate to RandomGen for such designs (C04's subject)
         captured = {}
 
         def spy(filename, initial_cnf, fresh, support, reqs):
